@@ -76,3 +76,36 @@ Definition check_case (k : case) : bool := check_probes k && check_desc k && che
 (* the probes on which model and implementation disagree *)
 Definition bad_probes (k : case) : list (name * N) :=
   filter (fun p => negb (verdict_matches (check_and_get (k_cls k) (k_inst k) (fst p)) (snd p))) (k_probes k).
+
+(* ---- histories over several objects ------------------------------------------------------------------
+   objects (class table, instance dictionary), the requests in delivery order (object index, name), and
+   the code observed for each request (as for probes; 5 = no such object / not delivered) *)
+Record hcase := mkHCase {
+  h_objects : list (cls * list name);
+  h_requests : list (nat * name);
+  h_observed : list N }.
+
+Definition h_behave (c : cls) (n : name) (a : unit) (i : list name) : list name * unit := (i, tt).
+
+Definition h_replies (k : hcase) : list (option (option (reply unit))) :=
+  snd (sys_run unit unit unit (fun _ _ => true) h_behave
+         (map (fun o => (fst o, mkW (T:=unit) None (snd o) [])) (h_objects k))
+         (map (fun r => (fst r, OMethod (mkReq (snd r) tt None))) (h_requests k))).
+
+Definition reply_matches (r : option (option (reply unit))) (o : N) : bool :=
+  match r with
+  | Some (Some (RResult _)) => verdict_matches Accept o
+  | Some (Some (RUnknownRpc v)) => verdict_matches v o
+  | Some (Some RLocked) => false
+  | Some None => false
+  | None => N.eqb o 5
+  end.
+
+Fixpoint all2 {X Y} (f : X -> Y -> bool) (a : list X) (b : list Y) : bool :=
+  match a, b with
+  | [], [] => true
+  | x :: a', y :: b' => f x y && all2 f a' b'
+  | _, _ => false
+  end.
+
+Definition check_hcase (k : hcase) : bool := all2 reply_matches (h_replies k) (h_observed k).
